@@ -329,17 +329,16 @@ package derive
 //@ extern func filepath.Split(path string) (dir string, file string)
 //@ pure
 //@ ensures file == baseName(path)
+// positions of parsed files are stable and a file set only grows: the token.File of a position, its
+// registered name and the position of an AST are modelled as attributes (pure, not heap-dependent)
 //@ extern func (s *token.FileSet) File(p token.Pos) (r *token.File)
 //@ pure
-//@ reads-heap
 //@ extern func (f *token.File) Name() (r string)
 //@ pure
-//@ reads-heap
 //@ extern func (x *ast.CallExpr) Pos() (r token.Pos)
 //@ pure
 //@ extern func (f *ast.File) Pos() (r token.Pos)
 //@ pure
-//@ reads-heap
 //@ extern func (o *types.Object) Pos() (r token.Pos)
 //@ pure
 //@ extern func (i *types.Info) TypeOf(e ast.Expr) (r types.Type)
@@ -377,9 +376,14 @@ package derive
 //@ assigns any derive.finder.undefined, any derive.finder.derived, any derive.finder.funcNames
 //@ requires program != nil && program.Fset != nil && infoOK(pkgInfo)
 //@ ensures forall i int :: 0 <= i && i < len(r) ==> r[i] != nil && r[i].funcNames != nil && !isDerivedFile(r[i].fullpath)
+// fullpath is the name under which the file the AST was parsed from is registered in the file set
+// (not a position's file name, which //line directives redirect): it is the file newPackage rewrites
+// and the directory derived.gen.go goes to
+//@ ensures [path-of-the-parsed-file] forall i int :: 0 <= i && i < len(r) ==> r[i].fullpath == token.File.Name(token.FileSet.File(program.Fset, ast.File.Pos(r[i].astFile)))
 //@ ensures forall i int, k int :: 0 <= i && i < len(r) && 0 <= k && k < len(r[i].undefined) ==> r[i].undefined[k] != nil && r[i].undefined[k].Expr != nil
 //@ ensures forall i int, k int :: 0 <= i && i < len(r) && 0 <= k && k < len(r[i].derived) ==> r[i].derived[k] != nil && r[i].derived[k].Expr != nil
 //@ loop 1: invariant forall i int :: 0 <= i && i < len(files) ==> files[i] != nil && files[i].funcNames != nil && !isDerivedFile(files[i].fullpath)
+//@ loop 1: invariant forall i int :: 0 <= i && i < len(files) ==> files[i].fullpath == token.File.Name(token.FileSet.File(program.Fset, ast.File.Pos(files[i].astFile)))
 //@ loop 1: invariant forall i int, k int :: 0 <= i && i < len(files) && 0 <= k && k < len(files[i].undefined) ==> files[i].undefined[k] != nil && files[i].undefined[k].Expr != nil
 //@ loop 1: invariant forall i int, k int :: 0 <= i && i < len(files) && 0 <= k && k < len(files[i].derived) ==> files[i].derived[k] != nil && files[i].derived[k].Expr != nil
 //@ loop 2: invariant f != nil && f.funcNames != nil && callsOK(f.undefined) && callsOK(f.derived)
